@@ -63,7 +63,7 @@ def corpus():
 
 
 def main():
-    chk = Check('C03')
+    chk = Check('C03', extra_modules=['Bardolph.Proofs.VmSteps'])
     chk.lean_phase(sections=set())
     rng = chk.rng
     n = 2500 if chk.thorough else 300
